@@ -174,6 +174,18 @@ def query_table():
         ("calculate_elemental_spatial_gradients(E)", lambda f: f.calculate_elemental_spatial_gradients(
             f.elemental_data.get_attribute_data('E'))),
         ("calculate_element_degree() ", lambda f: f.calculate_element_degree()),
+        ("calculate_nodal_spatial_gradients(T, kernel='gauss', alpha=1.)", lambda f: f.calculate_nodal_spatial_gradients(
+            f.nodal_data.get_attribute_data('T'), kernel='gauss', alpha=1.)),
+        ("calculate_nodal_spatial_gradients(T, kernel='gauss', alpha=40.)", lambda f: f.calculate_nodal_spatial_gradients(
+            f.nodal_data.get_attribute_data('T'), kernel='gauss', alpha=40.)),
+        ("calculate_nodal_spatial_gradients(T, consider_volume=False)", lambda f: f.calculate_nodal_spatial_gradients(
+            f.nodal_data.get_attribute_data('T'), consider_volume=False)),
+        ("calculate_elemental_spatial_gradients(E, n_hop=2)", lambda f: f.calculate_elemental_spatial_gradients(
+            f.elemental_data.get_attribute_data('E'), n_hop=2)),
+        ("calculate_elemental_spatial_gradients(E, kernel='exp', alpha=2.)", lambda f: f.calculate_elemental_spatial_gradients(
+            f.elemental_data.get_attribute_data('E'), kernel='exp', alpha=2.)),
+        ("calculate_euclidean_hop_graph(1.5)", lambda f: f.calculate_euclidean_hop_graph(1.5)),
+        ("calculate_euclidean_hop_graph(1.5, mode='nodal')", lambda f: f.calculate_euclidean_hop_graph(1.5, mode='nodal')),
         ('calculate_laplacian_matrix()', lambda f: f.calculate_laplacian_matrix()),
         ("calculate_laplacian_matrix(mode='elemental')", lambda f: f.calculate_laplacian_matrix(mode='elemental')),
         ('calculate_edge_gradient_matrix()', lambda f: f.calculate_edge_gradient_matrix()),
@@ -203,6 +215,16 @@ def family(qname):
     for fam in ('calculate_element_volumes', 'calculate_element_metrics', 'calculate_element_areas'):
         if qname.startswith(fam):
             return fam
+    return None
+
+
+def vopt(qname):
+    """with which options a query makes femio evaluate (and store) the element volumes / metrics; None = it does not"""
+    if qname.startswith('calculate_element_volumes'):
+        mode = 'linear' if "mode='linear'" in qname else 'centroid'
+        return mode + ('/abs' if 'return_abs_volume=True' in qname else '/signed')
+    if reads_stored(qname):
+        return 'centroid/signed'
     return None
 
 
@@ -292,6 +314,7 @@ def run_history(ctx, hid, script=None):
     _TRACE['objs'] = {}
     versions = [0] * n_obj
     asked = [[] for _ in range(n_obj)]
+    kept = [None] * n_obj
     modified = [False] * n_obj
     fam_opts = [dict() for _ in range(n_obj)]
     argids = {}
@@ -319,8 +342,10 @@ def run_history(ctx, hid, script=None):
             elif u < .9:
                 op = ('m', o, r.choice(['remove_useless_nodes', 'make_elements_positive', 'connectivity assignment',
                                         'coordinate assignment', 'user variable overwrite']))
-            else:
+            elif u < .96:
                 op = ('w', o, r.choice(['ucd', 'fistr']))
+            else:
+                op = ('c', o, 'reverse-surface-facets')
         kindop, o, arg = op
         fd = objs[o]
         if kindop == 'm' and arg == 'make_elements_positive' and kind != 'tet':
@@ -339,6 +364,8 @@ def run_history(ctx, hid, script=None):
                 with contextlib.redirect_stdout(io.StringIO()):
                     val = qf(fd)
                 dg = digest(val)
+                if qname == 'to_surface()':
+                    kept[o] = val
             except Exception as e:
                 err = f'{type(e).__name__}: {e}'
                 dg = ('raises', type(e).__name__)
@@ -352,8 +379,11 @@ def run_history(ctx, hid, script=None):
                    'snapshot': snap, 'case': case, 'err': err,
                    # a stored derived variable (volume / area / metric) may have been written by ANY earlier query on this
                    # object (metrics -> volumes, conversions -> metrics, ...), with that query's own options
-                   'opts_differ': reads_stored(qname) and fam_opts[o].get('any', False)}
-            fam_opts[o]['any'] = True
+                   # the stored variable explains a deviation only if an earlier query of this object evaluated the volumes
+                   # with OTHER options than this query would use
+                   'opts_differ': reads_stored(qname) and any(v != vopt(qname) for v in fam_opts[o].get('vopts', []))}
+            if vopt(qname) is not None:
+                fam_opts[o].setdefault('vopts', []).append(vopt(qname))
             records.append(rec)
             # rules from the trace: children of every miss
             top = [e for e in log if e['depth'] == 0]
@@ -409,6 +439,25 @@ def run_history(ctx, hid, script=None):
                 modified[o] = True
                 if model_on:
                     ops_model.append(('m', o + 1))
+        elif kindop == 'c':
+            # another live object: the surface mesh an earlier to_surface() of this object returned is modified in place
+            # (all its facets reversed by connectivity assignment).  The parent must not notice.
+            ch = kept[o]
+            if ch is not None:
+                with contextlib.redirect_stdout(io.StringIO()):
+                    try:
+                        ch.elements.data = np.array(ch.elements.data)[:, ::-1].copy()
+                    except Exception as e:   # mixed surfaces cannot be assigned: nothing happened
+                        ctx.count('child-modification:not-applicable')
+                        ch = None
+            after = user_snapshot(fd, user_vars)
+            ctx.case((hid, step), sample={'op': 'modify the surface object returned earlier', 'object': o}, nontrivial=ch is not None)
+            ctx.count('child-modification' + ('' if ch is not None else '(no child yet)'))
+            if before != after:
+                what = [k for k in before if before[k] != after[k]]
+                ctx.fail(f'user-data-changed:child-modification:{what[0]}', 'modifying the surface object returned by to_surface() '
+                         f'changed the {", ".join(what)} of the mesh it was extracted from', case, None)
+                return
         else:
             try:
                 with contextlib.redirect_stdout(io.StringIO()):
@@ -437,11 +486,17 @@ def run_history(ctx, hid, script=None):
         rec['is_fresh'] = fv == rec['digest']
         if not rec['is_fresh']:
             if rec['modified_before']:
-                sig = f'stale-after-modify:{base_name(rec["qname"])}'
+                mods_applied = [h[2] for h in rec['case']['history'][:rec['step']] if h[0] == 'm' and h[1] == rec['obj']
+                                and h[2] != 'user variable overwrite']
+                if script is not None and len(mods_applied) == 1:
+                    # systematic sandwich: exactly one in-place change -> attribute the staleness to it
+                    sig = f'stale-after:{mods_applied[0]}:{base_name(rec["qname"]).strip()}'
+                else:
+                    sig = f'stale-after-modify:{base_name(rec["qname"]).strip()}'
             elif rec['opts_differ']:
-                sig = f'options-ignored:{base_name(rec["qname"])}'
+                sig = f'options-ignored:{base_name(rec["qname"]).strip()}'
             else:
-                sig = f'history-dependent:{base_name(rec["qname"])}'
+                sig = f'history-dependent:{base_name(rec["qname"]).strip()}'
             case = dict(rec['case'])
             case['history'] = case['history'][:rec['step'] + 1]
             ctx.fail(sig, f'{rec["qname"]} on object {rec["obj"]} returned a value different from the value on a freshly built '
@@ -493,6 +548,22 @@ def run(ctx):
         for mname in (mods if not ctx.quick else [mods[(qi + j) % len(mods)] for j in range(2)] + ['user variable overwrite']):
             run_history(ctx, f's{k}', script=[('q', 0, qi), ('m', 0, mname), ('q', 0, qi)])
             k += 1
+    qnames = [q[0] for q in query_table()]
+    qs = qnames.index('to_surface()')
+    for q2 in ('to_surface()', 'calculate_surface_normals()', 'extract_surface()'):
+        run_history(ctx, f's{k}', script=[('q', 0, qs), ('c', 0, 'reverse-surface-facets'), ('q', 0, qnames.index(q2))])
+        k += 1
+    # ordered pairs of different spellings / options of the same query: the second must not see the first
+    by_base = {}
+    for qi, qn in enumerate(qnames):
+        by_base.setdefault(base_name(qn).strip(), []).append(qi)
+    pairs = [(a, b) for grp in by_base.values() for a in grp for b in grp if a != b]
+    if ctx.quick:
+        ctx.rng.shuffle(pairs)
+        pairs = pairs[:40]
+    for a, b in pairs:
+        run_history(ctx, f's{k}', script=[('q', 0, a), ('q', 0, b)])
+        k += 1
     ctx.extra['sandwich_histories'] = k
     for h in range(ctx.n(160, 1200)):
         run_history(ctx, h)
